@@ -19,3 +19,92 @@ pub fn revertible_market<'a, 'info>(
 ) -> Result<RevertibleMarket<'a, 'info>> {
     RevertibleMarket::new(market, None, EventEmitter::new(event_authority, bump))
 }
+
+// ---- round 2: the other revertible wrappers (same additive, forwarding-only style) ----
+
+use anchor_spl::token::Mint;
+
+use crate::states::{
+    market::{
+        pool::Pool,
+        revertible::{
+            revertible_virtual_inventory::RevertibleVirtualInventory, RevertibleLiquidityMarket,
+            RevertiblePosition,
+        },
+        virtual_inventory::VirtualInventory,
+    },
+    Position, Store,
+};
+
+/// `RevertibleLiquidityMarket::from_revertible_market(..).enable_mint(..).enable_burn(..)`.
+pub fn revertible_liquidity_market<'a, 'info>(
+    market: RevertibleMarket<'a, 'info>,
+    market_token: &'a Account<'info, Mint>,
+    token_program: &'a AccountInfo<'info>,
+    store: &'a AccountLoader<'info, Store>,
+    receiver: &'a AccountInfo<'info>,
+    vault: &'a AccountInfo<'info>,
+) -> Result<RevertibleLiquidityMarket<'a, 'info>> {
+    Ok(
+        RevertibleLiquidityMarket::from_revertible_market(market, market_token, token_program, store)?
+            .enable_mint(receiver)
+            .enable_burn(vault),
+    )
+}
+
+/// `RevertibleLiquidityMarket::base`.
+pub fn liquidity_market_base<'r, 'a, 'info>(
+    market: &'r RevertibleLiquidityMarket<'a, 'info>,
+) -> &'r RevertibleMarket<'a, 'info> {
+    market.base()
+}
+
+/// `RevertibleLiquidityMarket::base_mut`.
+pub fn liquidity_market_base_mut<'r, 'a, 'info>(
+    market: &'r mut RevertibleLiquidityMarket<'a, 'info>,
+) -> &'r mut RevertibleMarket<'a, 'info> {
+    market.base_mut()
+}
+
+/// `RevertiblePosition::new`.
+pub fn revertible_position<'a, 'info>(
+    market: RevertibleMarket<'a, 'info>,
+    loader: &'a AccountLoader<'info, Position>,
+    allow_market_closed: bool,
+) -> Result<RevertiblePosition<'a, 'info>> {
+    RevertiblePosition::new(market, loader, allow_market_closed)
+}
+
+/// `RevertibleVirtualInventory::new`.
+pub fn revertible_virtual_inventory<'info>(
+    loader: &AccountLoader<'info, VirtualInventory>,
+) -> Result<RevertibleVirtualInventory<'info>> {
+    RevertibleVirtualInventory::new(loader)
+}
+
+/// `RevertibleVirtualInventory::pool` (copied out).
+pub fn virtual_inventory_pool(vi: &RevertibleVirtualInventory<'_>) -> Result<Pool> {
+    Ok(*vi.pool()?)
+}
+
+/// `RevertibleVirtualInventory::pool_mut` followed by one `apply_delta_to_{long,short}_amount`.
+/// Returns whether the delta was accepted.
+pub fn virtual_inventory_apply_delta(
+    vi: &RevertibleVirtualInventory<'_>,
+    is_long: bool,
+    delta: i128,
+) -> Result<bool> {
+    use gmsol_model::Pool as _;
+    let mut pool = vi.pool_mut()?;
+    let res = if is_long {
+        pool.apply_delta_to_long_amount(&delta)
+    } else {
+        pool.apply_delta_to_short_amount(&delta)
+    };
+    Ok(res.is_ok())
+}
+
+/// The STORED pool of a virtual inventory account (not through the buffer).
+pub fn virtual_inventory_stored_pool(vi: &VirtualInventory) -> Pool {
+    *vi.pool().pool()
+}
